@@ -21,7 +21,7 @@ TRUSTED_BASE = [
     'no axioms declared by the development; Print Assumptions output of each property theorem is checked on every run',
     'extraction: ExtrOcamlBasic + ExtrOcamlString only (bool/option/unit/list/prod/sumbool -> OCaml natives, ascii -> char, string -> char list); Z/N/positive/nat stay inductive; OCaml 4.13.1 ocamlopt',
     'ocaml/driver.ml: reads a line, calls Model.run_line, prints the result (no logic)',
-    'gen/translate.py + the repository reader: std.wal/module.wal/Operator enum/SPECIAL_SIGNALS -> coq/Generated.v on every run',
+    'gen/translate.py + the repository reader: std.wal/module.wal/Operator enum/SPECIAL_SIGNALS/WAWK expression grammar rules -> coq/Generated.v on every run',
     'correspondence harness (harness/*.py): generators, canonicalisation, diff',
     'modelled, not verified: Python int/str/dict/list semantics, re.sub on three fixed patterns, int(s,base), str.split/strip, float arithmetic as IEEE binary64 (Coq SpecFloat), Lark, pickle, argparse, file I/O',
 ]
